@@ -28,10 +28,11 @@ def _wrapper_source(spec) -> str:
         f'sys.path.insert(0, {HERE!r})',
         'import vlib.shims',
         f'import {spec["module"]} as H',
+        f'from {spec["module"]} import *',
         'from typing import *',
         '',
         f'def ob({spec["params"]}) -> bool:',
-        '    """',
+        '    r"""',
     ]
     for p in spec['pre']:
         lines.append(f'    pre: {p}')
@@ -39,7 +40,7 @@ def _wrapper_source(spec) -> str:
     for r in spec.get('raises', []):
         lines.append(f'    raises: {r}')
     lines.append('    """')
-    lines.append(f'    return H.{spec["func"]}({", ".join(names)})')
+    lines.append(f'    return H.{spec["func"]}({spec.get("args") or ", ".join(names)})')
     lines.append('')
     return '\n'.join(lines)
 
@@ -73,8 +74,29 @@ def _load_wrapper(spec):
     return mod, path
 
 
+def _extend_crosshair():
+    """Engine extension: CrossHair rewrites `x in <set|dict>` with a symbolic x
+    into a linear scan of equality tests, but not for `frozenset` (which is what
+    a set display of constants, e.g. `s in {'__type__', '__std__'}`, compiles to):
+    there it hashes x, i.e. realises it.  Give frozenset the same treatment."""
+    from crosshair import opcode_intercept as oi
+    orig = oi.ContainmentInterceptor.trace_op
+
+    def trace_op(self, frame, codeobj, codenum):
+        item = oi.frame_stack_read(frame, -2)
+        if isinstance(item, oi.CrossHairValue):
+            container = oi.frame_stack_read(frame, -1)
+            if type(container) is frozenset:
+                oi.frame_stack_write(frame, -1, oi.ShellMutableSet(oi.LinearSet(container)))
+                return
+        return orig(self, frame, codeobj, codenum)
+
+    oi.ContainmentInterceptor.trace_op = trace_op
+
+
 def analyse(spec):
     t0 = time.time()
+    _extend_crosshair()
     mod, path = _load_wrapper(spec)
     H = mod.H
     from crosshair.core_and_libs import analyze_function, run_checkables
@@ -132,7 +154,14 @@ def replay(spec):
         res.update(outcome='pre_error', detail=repr(e))
         return res
     try:
-        r = fn(*args, **kwargs)
+        if spec.get('args'):
+            env = dict(vars(H))
+            env.update(bound)
+            full = eval('(' + spec['args'] + ',)', env)
+            res['full_args'] = repr(full)
+            r = fn(*full)
+        else:
+            r = fn(*args, **kwargs)
     except Exception as e:
         allowed = spec.get('raises', [])
         res.update(outcome='exception', exc=type(e).__name__, detail=str(e)[:500],
